@@ -80,7 +80,7 @@ template <class C, bool MULTI, bool ORDERED> void run() {
             case 'T': { Trav tr; tr.thread = vf_self(); tr.t0 = vf_stamp(); for (auto it = c.begin(); it != c.end(); ++it) tr.keys.push_back(keyof(it, ismap())); tr.t1 = vf_stamp(); travs.push_back(tr); } break;
             default: vf_fail("bad op"); } } });
     open_window_and_join(ids);
-    vf_liveness(0);
+    /* liveness stays on: the sequential phase that follows must terminate too */
     // traversal rules
     for (auto& tr : travs) {
         std::multiset<long> must = initial, may = initial;
